@@ -118,6 +118,6 @@ def harvest_cfgs_for(prop):
 
 
 BUDGETS = {
-    "quick": {"runs": 12000, "budget_s": 60, "selftest": 16, "harvest_wall": 400},
-    "thorough": {"runs": 40000, "budget_s": 1200, "selftest": 40, "harvest_wall": 2400},
+    "quick": {"runs": 12000, "budget_s": 100, "selftest": 16, "harvest_wall": 400},
+    "thorough": {"runs": 150000, "budget_s": 1500, "selftest": 40, "harvest_wall": 2400},
 }
